@@ -14,7 +14,7 @@ use crate::{
 };
 use std::{
     cell::{Cell, RefCell},
-    collections::HashSet,
+    collections::HashMap,
     panic::{AssertUnwindSafe, catch_unwind},
     sync::Arc,
 };
@@ -42,6 +42,8 @@ pub struct ExecEvent<'a> {
     /// true while the innermost running function frame is one of the interpreter's own
     /// generic helper closures (declared over placeholder types)
     pub in_helper: bool,
+    /// for a call instruction: which helper (if any) the function that just returned was
+    pub last_return_helper: Option<&'static str>,
     pub depth: usize,
 }
 
@@ -50,7 +52,8 @@ pub struct CallEvent<'a> {
     /// values bound to the parameters (looked up by name in the callee's interpreter);
     /// `None` for a parameter that is not bound
     pub args: Vec<Option<Variable>>,
-    pub helper: bool,
+    /// Some(kind) if the callee is one of the interpreter's generic helpers ("map", "filter", "iter", "type_filter")
+    pub helper: Option<&'static str>,
     pub native: bool,
     pub depth: usize,
 }
@@ -58,7 +61,7 @@ pub struct CallEvent<'a> {
 pub struct ReturnEvent<'a> {
     pub function: &'a Function,
     pub result: Result<&'a Variable, &'a ExecError>,
-    pub helper: bool,
+    pub helper: Option<&'static str>,
     pub native: bool,
     pub depth: usize,
 }
@@ -86,9 +89,10 @@ thread_local! {
     static YIELD_EVERY: Cell<u64> = const { Cell::new(0) };
     static WANT_TYPES: Cell<bool> = const { Cell::new(true) };
     static TICKS: Cell<u64> = const { Cell::new(0) };
-    static HELPER_SCOPE: Cell<usize> = const { Cell::new(0) };
-    static FRAMES: RefCell<Vec<bool>> = const { RefCell::new(Vec::new()) };
-    static HELPER_BODIES: RefCell<HashSet<usize>> = RefCell::new(HashSet::new());
+    static HELPER_SCOPE: RefCell<Vec<&'static str>> = const { RefCell::new(Vec::new()) };
+    static FRAMES: RefCell<Vec<Option<&'static str>>> = const { RefCell::new(Vec::new()) };
+    static HELPER_BODIES: RefCell<HashMap<usize, &'static str>> = RefCell::new(HashMap::new());
+    static LAST_RETURN_HELPER: Cell<Option<&'static str>> = const { Cell::new(None) };
     static SRC: RefCell<Vec<Arc<str>>> = const { RefCell::new(Vec::new()) };
 }
 
@@ -110,7 +114,8 @@ pub fn uninstall() -> Option<Box<dyn Monitor>> {
 pub fn reset() {
     PASS_EXEC.with(|p| p.set(false));
     PASS_CALL.with(|p| p.set(false));
-    HELPER_SCOPE.with(|p| p.set(0));
+    HELPER_SCOPE.with(|p| p.borrow_mut().clear());
+    LAST_RETURN_HELPER.with(|l| l.set(None));
     FRAMES.with(|f| f.borrow_mut().clear());
     SRC.with(|s| s.borrow_mut().clear());
 }
@@ -212,18 +217,28 @@ pub(crate) struct HelperGuard;
 
 impl Drop for HelperGuard {
     fn drop(&mut self) {
-        HELPER_SCOPE.with(|h| h.set(h.get().saturating_sub(1)));
+        HELPER_SCOPE.with(|h| {
+            h.borrow_mut().pop();
+        });
     }
 }
 
 /// Marks the dynamic extent in which the interpreter builds one of its generic helper closures.
-pub(crate) fn helper_scope() -> HelperGuard {
-    HELPER_SCOPE.with(|h| h.set(h.get() + 1));
+pub(crate) fn helper_scope(kind: &'static str) -> HelperGuard {
+    HELPER_SCOPE.with(|h| h.borrow_mut().push(kind));
     HelperGuard
 }
 
+fn helper_scope_kind() -> Option<&'static str> {
+    HELPER_SCOPE.with(|h| h.borrow().last().copied())
+}
+
+fn helper_frame() -> Option<&'static str> {
+    FRAMES.with(|f| f.borrow().last().copied().flatten())
+}
+
 fn in_helper_frame() -> bool {
-    FRAMES.with(|f| f.borrow().last().copied().unwrap_or(false))
+    helper_frame().is_some()
 }
 
 fn body_key(function: &Function) -> Option<usize> {
@@ -238,18 +253,18 @@ pub(crate) fn function_created(function: &Function) {
     if !active() {
         return;
     }
-    if (HELPER_SCOPE.with(Cell::get) > 0 || in_helper_frame())
+    if let Some(kind) = helper_scope_kind().or_else(helper_frame)
         && let Some(key) = body_key(function)
     {
         HELPER_BODIES.with(|h| {
-            h.borrow_mut().insert(key);
+            h.borrow_mut().insert(key, kind);
         });
     }
 }
 
-/// true if this function is one of the interpreter's own generic helper closures
-pub fn is_helper(function: &Function) -> bool {
-    body_key(function).is_some_and(|key| HELPER_BODIES.with(|h| h.borrow().contains(&key)))
+/// Some(kind) if this function is one of the interpreter's own generic helper closures
+pub fn is_helper(function: &Function) -> Option<&'static str> {
+    body_key(function).and_then(|key| HELPER_BODIES.with(|h| h.borrow().get(&key).copied()))
 }
 
 pub(crate) fn kind(instruction: &Instruction) -> (&'static str, String) {
@@ -317,6 +332,7 @@ pub(crate) fn observe_exec(instruction: &Instruction, result: &ExecResult) {
         static_type,
         outcome,
         in_helper: in_helper_frame(),
+        last_return_helper: LAST_RETURN_HELPER.with(Cell::get),
         depth: depth(),
     };
     with_monitor(|m| m.on_exec(&event));
@@ -342,7 +358,7 @@ impl Drop for FrameGuard {
 }
 
 pub(crate) fn call_enter(function: &Function, interpreter: &Interpreter) -> FrameGuard {
-    let helper = is_helper(function) || HELPER_SCOPE.with(Cell::get) > 0;
+    let helper = is_helper(function).or_else(helper_scope_kind);
     let depth = FRAMES.with(|f| {
         let mut frames = f.borrow_mut();
         frames.push(helper);
@@ -376,7 +392,8 @@ pub(crate) fn call_exit(function: &Function, result: &Result<Variable, ExecError
     if !active() {
         return;
     }
-    let helper = in_helper_frame();
+    let helper = helper_frame();
+    LAST_RETURN_HELPER.with(|l| l.set(helper));
     let event = ReturnEvent {
         function,
         result: result.as_ref(),
